@@ -195,8 +195,44 @@ func main() {
 	if out, err := run(*verifDir, env, simgen, "-repo", *repoDir, "-out", src, "-verif", *verifDir); err != nil {
 		die("simgen failed: %v\n%s", err, out)
 	}
+	// The TLS implementation nbhttp uses (github.com/lesismal/llib, a dependency) takes locks,
+	// reads the clock and draws random numbers: in the e2e world it is transformed like nbio.
+	llibReplace := ""
+	if spec.World == "e2e" {
+		out, err := run(*repoDir, env, "/opt/veriftools/go1.26.8/bin/go", "list", "-m", "-f", "{{.Dir}}", "github.com/lesismal/llib")
+		dir := strings.TrimSpace(out)
+		if err != nil || dir == "" {
+			die("locating the llib module failed: %v\n%s", err, out)
+		}
+		orig, dst := filepath.Join(scratch, "llib-orig"), filepath.Join(scratch, "llib")
+		for _, d := range []string{orig, dst} {
+			if out, err := run(scratch, env, "cp", "-r", dir, d); err != nil {
+				die("copying llib: %v\n%s", err, out)
+			}
+			run(scratch, env, "chmod", "-R", "u+w", d)
+		}
+		if out, err := run(*verifDir, env, simgen, "-mod", "github.com/lesismal/llib", "-repo", orig, "-pkgs", "std/crypto/tls", "-out", dst, "-sitebase", "100000", "-verif", *verifDir); err != nil {
+			die("simgen (llib) failed: %v\n%s", err, out)
+		}
+		gm, _ := os.ReadFile(filepath.Join(dst, "go.mod"))
+		os.WriteFile(filepath.Join(dst, "go.mod"), []byte(strings.Replace(string(gm), "\ngo 1.16\n", "\ngo 1.21\n", 1)), 0o644)
+		// pin the dependency versions of the real build: with llib replaced by a directory the
+		// module graph would otherwise be pruned differently and ask for versions that are not cached
+		list, err := run(*repoDir, env, "/opt/veriftools/go1.26.8/bin/go", "list", "-m", "-f", "{{.Path}} {{.Version}}", "all")
+		if err != nil {
+			die("listing the modules of the build failed: %v\n%s", err, list)
+		}
+		pins := ""
+		for _, l := range strings.Split(strings.TrimSpace(list), "\n") {
+			f := strings.Fields(l)
+			if len(f) == 2 && f[0] != "github.com/lesismal/nbio" {
+				pins += "\t" + f[0] + " " + f[1] + "\n"
+			}
+		}
+		llibReplace = fmt.Sprintf("\nrequire (\n%s)\n\nreplace github.com/lesismal/llib => %s\n", pins, dst)
+	}
 	modfile := filepath.Join(scratch, "go.mod")
-	mod := fmt.Sprintf("module verif\n\ngo 1.26\n\nrequire (\n\tgithub.com/anishathalye/porcupine v1.3.0\n\tgithub.com/lesismal/nbio v0.0.0\n)\n\nreplace github.com/lesismal/nbio => %s\n", src)
+	mod := fmt.Sprintf("module verif\n\ngo 1.26\n\nrequire (\n\tgithub.com/anishathalye/porcupine v1.3.0\n\tgithub.com/lesismal/nbio v0.0.0\n)\n\nreplace github.com/lesismal/nbio => %s\n", src) + llibReplace
 	if err := os.WriteFile(modfile, []byte(mod), 0o644); err != nil {
 		die("%v", err)
 	}
